@@ -221,6 +221,11 @@ def one_request(app, W, beh, pos, n, accept, method='GET'):
     code = int(status.split()[0])
     by = 'get' if b'answered-by-get-route' in body else ('post' if b'answered-by-post-route' in body else
                                                             ('typed' if b'answered-by-typed-route' in body else None))
+    clen = dict(hdrs).get('Content-Length')
+    if clen is not None and method != 'HEAD' and code not in (204, 304) and int(clen) != len(body):
+        # "a complete HTTP response": a server would cut the body short (or wait for bytes that never come)
+        return {'k': 'escape', 'cls': 'ContentLengthMismatch', 'same_object': False,
+                'msg': 'Content-Length %s but %d body bytes (status %d)' % (clen, len(body), code)}
     return {'k': 'status', 'code': code, 'len': len(body), 'own': W.http.code if W.http else None, 'by': by,
             'ctype': (dict(hdrs).get('Content-Type') or '').split(';')[0]}
 
